@@ -80,6 +80,8 @@ def run(ctx):
 
 LOST_SLOTS = ('lost=>failed-at-once', 'registers-only-if-not-lost',
               'loss-is-recorded', 'lost-path-exists')
+# premises of the loss sequence kept by the other handlers of the table
+TABLE_SLOTS = ('fired-timer-leaves-the-table',)
 
 
 def calls_after_loss(ctx):
@@ -97,6 +99,10 @@ def calls_after_loss(ctx):
             if rule == 'C08.D2' and slot in LOST_SLOTS:
                 ctx.ob('C09.D3', where, slot, ok, msg, detail, nontrivial,
                        loc)
+            if rule == 'C08.D3' and slot in TABLE_SLOTS:
+                ctx.ob('C09.D3', where, slot, ok, '[connectionLost cancels '
+                       'every timer it finds in the table] ' + msg, detail,
+                       nontrivial, loc)
             return ok
 
         def floor(self, *a):
